@@ -211,7 +211,9 @@ def load_findings(pid):
             if e.get("property") != pid:
                 continue
             if e.get("status") == "known":
-                known[e["sig"]] = e
+                # one defect may show under several signature variants
+                for sig in [e["sig"]] if "sig" in e else e["sigs"]:
+                    known[sig] = e
             elif e.get("status") == "fixed":
                 fixed.append(e)
     return known, fixed
@@ -290,8 +292,14 @@ def _explore(driver, modname, pid, tier, seed, jobs, tmpbase, t0, only):
         else:
             violations.append((sig, rec))
 
+    printed = set()
     for sig, rec in known_hit:
-        print(f"KNOWN-FINDING: property={pid} {known[sig].get('what', sig)} [sig={sig}; {rec['count']} failing cases this run]")
+        e = known[sig]
+        if id(e) in printed:
+            continue
+        printed.add(id(e))
+        nfail = sum(r["count"] for s2, r in known_hit if known[s2] is e)
+        print(f"KNOWN-FINDING: property={pid} {e.get('what', sig)} [{nfail} failing cases this run]")
 
     status = 0
     replay_paths = []
